@@ -164,6 +164,7 @@ def check_cases(plan, V, log, counters):
         if i < len(cases):
             o = one_step(*(a[i] for a in args))
             rows.append((i, int(o[0]), float(o[1]), int(o[2]), np.asarray(o[3]), np.asarray(o[4]), float(o[5]), "eager"))
+    freq_cases: list = []
     for (i, co, a, mv, x_new, lp_new, ui, mode) in rows:
         c = cases[i]
         cur, prop, corr = fv(c["cur"]), fv(c["prop"]), fv(c["corr"])
@@ -190,18 +191,33 @@ def check_cases(plan, V, log, counters):
             V.add("zero-probability-accepted", f"{cls}/u={'0' if ui == 0.0 else '>0'}", f"a proposal with acceptance probability 0 was accepted: {desc}")
         if alpha == 1.0 and not accepted:
             V.add("certain-proposal-rejected", cls, f"a proposal with acceptance probability 1 was rejected: {desc}")
-        if 0.0 < alpha < 1.0:
-            margin = 1e-5 + 1e-4 * alpha
-            if accepted and ui > alpha + margin:
-                V.add("accept-iff-u-below-alpha", "accepted-above", f"accepted although the uniform draw exceeds alpha = {alpha}: {desc}")
-            if not accepted and ui < alpha - margin:
-                V.add("accept-iff-u-below-alpha", "rejected-below", f"rejected although the uniform draw is below alpha = {alpha}: {desc}")
+        if 0.0 < alpha < 1.0 and mode == "jit+vmap" and 0.02 < alpha < 0.98 and len(freq_cases) < 24:
+            freq_cases.append((i, alpha, desc))
         if undefined != (co == 90) or co not in (0, 90):
             V.add("error-code", cls, f"error code {co}: {desc}")
         exp_x, exp_lp = (fv(c["xp"]), prop) if accepted else (fv(c["x"]), cur)
         if x_new.tobytes() != np.asarray(exp_x).tobytes() or not (lp_new.tobytes() == np.asarray(exp_lp).tobytes() or (np.isnan(lp_new) and np.isnan(exp_lp))):
             V.add("returned-state", "accepted" if accepted else "rejected",
                   f"moved flag says {'accepted' if accepted else 'rejected'} but the returned state is x={x_new}, lp={lp_new} (input x={c['x']}, proposal x={c['xp']}): {desc}")
+    # 0 < alpha < 1: "accepted only if the uniform draw lies below alpha".  Which draw the
+    # implementation uses is its own business, so the clause is judged by the acceptance
+    # frequency over N independent keys: |freq - alpha| <= t with t from Hoeffding's inequality,
+    # false-alarm probability <= 1e-12 per case.
+    if freq_cases:
+        N = 2048
+        t = float(np.sqrt(np.log(2 / 1e-12) / (2 * N)))
+        base = jax.random.PRNGKey(plan["cases"][0]["seed"])
+        keys_n = jax.random.split(base, N)
+        idx = [i for i, _, _ in freq_cases]
+        sub = tuple(a[jnp.asarray(idx)] for a in args[1:])
+        f = jax.jit(jax.vmap(jax.vmap(one_step, in_axes=(0, None, None, None, None, None)), in_axes=(None, 0, 0, 0, 0, 0)))
+        mv_n = np.asarray(f(keys_n, *sub)[2]).astype(float)
+        for row, (i, alpha, desc) in enumerate(freq_cases):
+            fr = mv_n[row].mean()
+            if abs(fr - alpha) > t:
+                V.add("acceptance-frequency", "0<alpha<1", f"over {N} independent keys the proposal was accepted with frequency {fr:.3f}, acceptance probability is {alpha:.3f} (bound {t:.3f}): {desc}")
+        counters["frequency_cases"] = counters.get("frequency_cases", 0) + len(freq_cases)
+        counters["mh_step_calls"] = counters.get("mh_step_calls", 0) + N * len(freq_cases)
     counters["mh_step_calls"] = counters.get("mh_step_calls", 0) + len(rows)
     log.add("cases", code.tolist(), moved.tolist(), ap.tolist())
 
